@@ -52,15 +52,20 @@ def guard_text(guards):
 
 # ---- native harness ---------------------------------------------------------------------------------------------
 DSDL = {
-    "in/rep/Thing.1.0.dsdl": "uint8 a\ndepns.D.1.0 d\nrep.inner.Other.1.0 o\n@sealed\n",
+    "in/rep/Thing.1.0.dsdl": "uint8 a\ndepns.D.1.0 d\nrep.inner.Other.1.0 o\ndepns.Mid.1.0[<=2] mids\nrep.ext.Far.1.0 far\n@sealed\n",
     "in/rep/inner/Other.1.0.dsdl": "int13 x\n@sealed\n",
     "dep/depns/D.1.0.dsdl": "float16 f\n@sealed\n",
+    # reached only through an array element type
+    "dep/depns/Mid.1.0.dsdl": "depns.leaf.Leaf.1.0 l\n@sealed\n",
+    "dep/depns/leaf/Leaf.1.0.dsdl": "uint8 v\n@sealed\n",
+    # the root namespace continued in a lookup directory (same root name, other directory)
+    "dep2/rep/ext/Far.1.0.dsdl": "uint16 w\n@sealed\n",
 }
 
 
 def nnvg(base: pathlib.Path, extra):
     env = dict(os.environ, PYTHONPATH=str(SRC), PYTHONDONTWRITEBYTECODE="1")
-    argv = [sys.executable, "-m", "nunavut", "--outdir", str(base / "out"), "-I", str(base / "dep/depns")] + extra + [str(base / "in/rep")]
+    argv = [sys.executable, "-m", "nunavut", "--outdir", str(base / "out"), "-I", str(base / "dep/depns"), "-I", str(base / "dep2/rep")] + extra + [str(base / "in/rep")]
     return subprocess.run(argv, capture_output=True, text=True, env=env, cwd=str(base))
 
 
@@ -124,6 +129,47 @@ def native_inputs_complete(lang):
             f.write_text(orig)
             if now != ref and os.path.realpath(f) not in listed:
                 return {"input": {"language": lang, "modified": rel}, "why": f"changing {rel} changes the output but --list-inputs does not name it"}
+        return None
+    finally:
+        shutil.rmtree(base, ignore_errors=True)
+
+
+def native_custom_support_template():
+    base = scenario()
+    try:
+        sup = base / "sup"
+        sup.mkdir()
+        text = (SRC / "nunavut/lang/c/support/serialization.j2").read_text()
+        (sup / "serialization.j2").write_text(text + "\n// CUSTOM SUPPORT TEMPLATE\n")
+        li = nnvg(base, ["--target-language", "c", "--support-templates", str(sup), "--list-inputs"])
+        g = nnvg(base, ["--target-language", "c", "--support-templates", str(sup)])
+        if li.returncode != 0 or g.returncode != 0:
+            return None
+        used = "CUSTOM SUPPORT TEMPLATE" in (base / "out/nunavut/support/serialization.h").read_text()
+        listed = {os.path.realpath(x) for x in li.stdout.strip().split(";") if x}
+        if used and os.path.realpath(sup / "serialization.j2") not in listed:
+            return {"input": ["--support-templates", "<dir with serialization.j2>"], "why": "the run renders the custom support template but --list-inputs names the built-in one instead"}
+        return None
+    finally:
+        shutil.rmtree(base, ignore_errors=True)
+
+
+def native_custom_templates():
+    """custom template directory with same-named partials in sub-folders: both must be listed"""
+    base = scenario()
+    try:
+        t = base / "tpl"
+        for sub, text in (("head", "/* head */\n"), ("tail", "/* tail */\n")):
+            (t / sub).mkdir(parents=True)
+            (t / sub / "part.j2").write_text(text)
+        (t / "Any.j2").write_text("{% include 'head/part.j2' %}{{ T.full_name }}{% include 'tail/part.j2' %}\n")
+        li = nnvg(base, ["--target-language", "c", "--templates", str(t), "--list-inputs"])
+        if li.returncode != 0:
+            return None
+        listed = {os.path.realpath(x) for x in li.stdout.strip().split(";") if x}
+        for f in (t / "head/part.j2", t / "tail/part.j2", t / "Any.j2"):
+            if os.path.realpath(f) not in listed:
+                return {"input": {"templates": ["Any.j2", "head/part.j2", "tail/part.j2"]}, "why": f"custom template {f.relative_to(t)} is used by the run but not named by --list-inputs"}
         return None
     finally:
         shutil.rmtree(base, ignore_errors=True)
@@ -240,6 +286,71 @@ def main():
         w = native_inputs_complete("c")
         run.fail(report.Failure("_list_inputs_only#lists-dependency-closure", "relational", "DSDL files reached through lookup directories are not listed"
                                 + (f"; {w['why']}" if w else ""), {"witness": w}, bool(w)))
+    # the filter that avoids listing a file twice may only drop what was listed just before
+    gens = [n for n in ast.walk(li.node) if isinstance(n, (ast.GeneratorExp, ast.ListComp)) and "lookup" in ast.unparse(n)]
+    for g in gens:
+        conds = [ast.unparse(c) for comp in g.generators for c in comp.ifs]
+        ok = all(c in ("d not in root_datatypes",) for c in conds)
+        run.add_check("_list_inputs_only#lookup-listing-drops-only-what-is-already-listed", ok, "E-FX", 0, f"filters {conds}")
+        if not ok:
+            w = native_inputs_complete("c")
+            run.fail(report.Failure("_list_inputs_only#lookup-listing-drops-only-what-is-already-listed", "relational", f"lookup dependencies are filtered by {conds}, which can drop files that were not listed"
+                                    + (f"; {w['why']}" if w else ""), {"witness": w}, bool(w)))
+    # the dependency closure really is transitive: every recursive call hands the flag on unchanged
+    q = "nunavut._dependencies:DependencyBuilder._extract_dependent_types"
+    if q in ix.fns:
+        bad = []
+        for n in ast.walk(ix.fns[q].node):
+            if isinstance(n, ast.Call) and ast.unparse(n.func).endswith("_extract_dependent_types") and len(n.args) >= 2 and ast.unparse(n.args[1]) != "transitive":
+                bad.append(ast.unparse(n)[:90])
+        for q2 in ("nunavut._dependencies:DependencyBuilder._extract_dependent_types_handle_array_type",):
+            pass
+        run.add_check("DependencyBuilder._extract_dependent_types#transitive-flag-handed-on-unchanged", not bad, "E-FX", 0, str(bad))
+        if bad:
+            w = native_inputs_complete("c")
+            run.fail(report.Failure("DependencyBuilder._extract_dependent_types#transitive-flag-handed-on-unchanged", "relational", f"recursive call drops the transitive flag: {bad}"
+                                    + (f"; {w['why']}" if w else ""), {"witness": w}, bool(w)))
+    else:
+        run.undecide("binding failure: DependencyBuilder._extract_dependent_types")
+    # get_templates: the set of listed templates is keyed by the full path
+    q = "nunavut.jinja.loaders:DSDLTemplateLoader.get_templates"
+    if q in ix.fns:
+        fn = ix.fns[q].node
+        adds = [ast.unparse(n.args[0]) for n in ast.walk(fn) if isinstance(n, ast.Call) and ast.unparse(n.func) == "files.add"]
+        ok = sorted(adds) == ["template", "templates_base_path / pathlib.Path(t)"] and "sorted(files)" in ast.unparse(fn) and "files = set()" in ast.unparse(fn)
+        run.add_check("DSDLTemplateLoader.get_templates#every-template-file-listed-by-full-path", ok, "E-FX", 0, f"files.add arguments {adds}")
+        if not ok:
+            w = native_custom_templates()
+            run.fail(report.Failure("DSDLTemplateLoader.get_templates#every-template-file-listed-by-full-path", "relational", f"template listing built from {adds}"
+                                    + (f"; {w['why']}" if w else ""), {"witness": w}, bool(w)))
+    # SupportGenerator.get_templates must name the templates the support loader really resolves (custom
+    # --support-templates directories included), as CodeGenerator.get_templates does for type templates
+    q = "nunavut.jinja:SupportGenerator.get_templates"
+    if q in ix.fns:
+        src_t = ast.unparse(ix.fns[q].node)
+        ok = "_dsdl_template_loader" in src_t or "support_templates" in src_t
+        run.add_check("SupportGenerator.get_templates#lists-the-templates-the-loader-resolves", ok, "E-FX", 0, "consults the template loader / the custom support template directory")
+        if not ok:
+            w = native_custom_support_template()
+            run.fail(report.Failure("SupportGenerator.get_templates#lists-the-templates-the-loader-resolves", "relational",
+                                    "the support template listing is built from the package resources only" + (f"; {w['why']}" if w else ""), {"witness": w}, bool(w)))
+    # files pulled in by built-in templates through include/import/extends must be covered by the (suffix-filtered) listing
+    from nunavut.jinja.jinja2 import nodes as JN
+    for path in sorted((SRC / "nunavut" / "lang").rglob("*.j2")):
+        try:
+            tree = efx.parse_template(SRC, path)
+        except Exception:
+            continue
+        for node in tree.find_all((JN.Include, JN.Import, JN.FromImport, JN.Extends)):
+            tn = node.template
+            names = [tn.value] if isinstance(tn, JN.Const) and isinstance(tn.value, str) else []
+            for nm in names:
+                ok = nm.endswith(".j2")
+                rel = path.relative_to(SRC).as_posix()
+                run.add_check(f"{rel}#included-file-is-a-listed-template:{nm}", ok, "E-FX (Jinja AST)", 0, f"{rel}:{node.lineno} includes {nm}")
+                if not ok:
+                    run.fail(report.Failure(f"{rel}#included-file-is-a-listed-template:{nm}", "relational",
+                                            f"{rel}:{node.lineno} includes {nm!r}, whose content reaches the output, but only *.j2 files are named by --list-inputs", {}, False))
     run.add_function("ArgparseRunner._list_outputs_only/_list_inputs_only/_list_configuration_only/_generate/_should_generate_support",
                      "DSDLCodeGenerator.generate_all/_generate_type", "SupportGenerator.generate_all/_generate_header/_copy_header/_copy_header_using_line_pps",
                      "CodeGenerator._generate_code/_handle_overwrite", "post-processors (SetFileMode, ExternalProgramEditInPlace)")
@@ -254,9 +365,11 @@ def main():
         run.fail(report.Failure("native#list-vs-generate", "relational", f"nnvg {' '.join(bad['input'])}: {bad['why']}", {"witness": bad}, True))
     for lang in (("c", "py") if args.tier == "thorough" else ("c",)):
         w = native_inputs_complete(lang)
-        run.add_bounded(f"--list-inputs names every DSDL file whose content changes the output ({lang})", "3 files, one mutation each", 3, w is None, str(w or ""))
+        run.add_bounded(f"--list-inputs names every DSDL file whose content changes the output ({lang})", f"{len(DSDL)} files, one mutation each", len(DSDL), w is None, str(w or ""))
         if w and not any("dependency-closure" in f.obligation for f in run.failures):
             run.fail(report.Failure("native#inputs-complete", "relational", w["why"], {"witness": w}, True))
+    w = native_custom_templates()
+    run.add_bounded("--list-inputs names same-named custom templates in different sub-folders", "one custom template directory", 1, w is None, str(w or ""))
     run.trust("E-FX (vk/efx.py): call resolution by class hierarchy, guard dominance")
     run.assume("the file list returned by generate_all is a function of the namespace, the language context and omit_serialization_support (R2 checks the mode flags syntactically)",
                "OS file-system calls behave as documented; callees E-FX cannot resolve are pure (listed under unresolved_callees_assumed_pure)")
